@@ -261,7 +261,7 @@ Proof.
   destruct (command_of t =?s "plugin_cmd").
   { unfold do_plugin in H. split_res H; inversion H; subst; try rewrite Heqo0; exact I. }
   destruct (command_of t =?s "fs").
-  { unfold do_fs in H. split_res H; inversion H; subst; exact I. }
+  { destruct (do_fs_inv _ _ _ _ H) as [-> _]. exact I. }
   inversion H; subst. exact I.
 Qed.
 
